@@ -144,6 +144,25 @@ CLAIMED = {
          'replaced by Miri/ASan (different technique family).',
     technique='TLC trace validation of workloads run under a guard-page allocator (crash = rejected trace) + slab borrow trace spec',
     design='4/C12'),
+ 'C09': dict(
+    category='model_checking',
+    text='The specification\'s Enc is linear per byte column by construction (TLC confirms it on the spec for a small block); the '
+         'implementation is validated relationally by TLC for every symbol size T in 1..130 (thorough 1..300): packets of A xor B, '
+         'c*A (spec field product) and of every byte column of A alone must match position-wise, through new() and through one '
+         'encoding plan reused across all T.',
+    note='Trusted: TLC, GF256 (C10). Relational check: absolute correctness of the packets is C04.',
+    technique='TLC trace validation of linearity and byte-column independence relations over all symbol-size residues',
+    design='4/C09'),
+ 'C07': dict(
+    category='model_checking',
+    text='One seeded workload (encode, five decode sets per block, whole objects) is run under every configuration: {release, '
+         'debug-assertions+overflow-checks} x {auto, AVX-512, AVX2, SSSE3, portable kernels forced through the hook} x {new, explicit '
+         'plan, threshold 0/250/inf x direct/plan} (decoding: threshold 0/250/inf), plus a no_std build. TLC validates that the '
+         'outcome of each scenario is a function of the scenario alone (first configuration fixes it, all others must be equal).',
+    note='Trusted: TLC; FNV digests for outputs above 1500 bytes; the common outcome is checked against the RFC oracle on the default '
+         'configuration by C04/C01. NEON not available on this host.',
+    technique='TLC trace validation of a configuration-independence specification over ~120 build/CPU/back-end/plan configurations',
+    design='4/C07'),
 }
 
 NOT_YET = 'check not built yet in this round (work in progress; see DESIGN.md section 8 for the order of work)'
@@ -169,7 +188,7 @@ def main():
     na = [{'property_id': p, 'reason': NA.get(p, NOT_YET)} for p in ALL if p not in CLAIMED]
     man = {
         'version': 1,
-        'setup_cmd': 'cd /verif/harness && cargo build --offline --release 2>&1 | tail -3 && cargo build --offline --profile checked 2>&1 | tail -3',
+        'setup_cmd': 'cd /verif/harness && cargo build --offline --release 2>&1 | tail -3 && cargo build --offline --profile checked 2>&1 | tail -3 && cd /verif/harness-nostd && cargo build --offline --release 2>&1 | tail -3',
         'hooks': {
             'guard': '--cfg raptorq_verif',
             'enable': 'harness/.cargo/config.toml passes rustflags --cfg raptorq_verif; the harness depends on /repo by path '
